@@ -321,7 +321,8 @@ func runC17(e *env) error {
 			e.rep.Sample(map[string]any{"converters": rc.Project.Convs, "args": rc.Args, "prior": rc.Prior, "exit": o.res.Exit, "created": o.created})
 		}
 	}
-	return nil
+	// (c) faulty settings carried by every shape of converter, decided by the settings model (w10_c17.go)
+	return w10C17(e, bin, base, r.Fork(1017))
 }
 
 func strNodes(xs []string) []*sx.Node {
